@@ -547,8 +547,9 @@ func (db *Database) performFuzzySearch(query string, options SearchOptions) []Se
 	matches := fuzzy.Find(query, targets)
 
 	var results []SearchResult
+	maxMatches := utils.BufferCap(len(matches), options.Limit, 2) // Get more for better selection
 	for i, match := range matches {
-		if i >= options.Limit*2 { // Get more for better selection
+		if i >= maxMatches {
 			break
 		}
 
